@@ -32,12 +32,23 @@ ASSUME = {
     "R16": "R16: handler loops are verified as one copy per select!/match arm (sound case split; arm_verified_in_another_copy is `ensures false` by construction)",
 }
 
+ACTORS = ["A-hash", "A-clone", "A-std", "A-chan", "A-proc", "A-bridge", "R1", "R16"]
 PROPS = {
-    "C01": {
-        "units": ["ACT"],
-        "level": "proof",
-        "assume": ["A-hash", "A-clone", "A-std", "A-chan", "A-proc", "A-bridge", "R1", "R16"],
-    },
+    "C01": {"units": ["ACT", "RELAY"], "level": "proof", "assume": ACTORS},
+    "C04": {"units": ["ACT", "RELAY"], "level": "proof", "assume": ACTORS + ["A-exec"],
+            "not_covered": ["not covered: liveness itself (executor fairness, that scripts terminate, any time bound) - only the safety skeleton of termination is proved"]},
+    "C05": {"units": ["BLD", "ACT"], "level": "proof", "assume": ACTORS},
+    "C06": {"units": ["ACT", "RELAY"], "level": "proof", "assume": ACTORS + ["A-notify"],
+            "not_covered": ["not covered: convergence as a liveness statement; notify's delivery guarantees"]},
+    "C07": {"units": ["BLD", "ACT", "RELAY"], "level": "proof", "assume": ACTORS,
+            "not_covered": ["not covered: the text of the error message"]},
+    "C08": {"units": ["ACT", "BLD", "RELAY"], "level": "proof", "assume": ACTORS,
+            "not_covered": ["not covered: 'at least once' is C04's liveness"]},
+    "C10": {"units": ["BLD", "ACT", "RELAY"], "level": "proof", "assume": ACTORS,
+            "not_covered": ["not covered: any latency bound; grandchildren of the shell; the hand-off from the signal handler task"]},
+    "C11": {"units": ["ACT", "RELAY"], "level": "proof", "assume": ACTORS},
+    "C20": {"units": ["ACT", "RELAY"], "level": "proof", "assume": ACTORS,
+            "not_covered": ["not covered: the metamorphic comparison of two real invocations"]},
 }
 
 PLANNED = ["C%02d" % i for i in range(1, 21)]
